@@ -103,6 +103,7 @@ def check_trace_acd(case, res, rep, lean_drive):
     prev = None         # (w, Xw) before the current event
     ws = None
     last_and = None
+    last_accept = None
     cur_head = None
     i = 0
     n_obj = 0
@@ -136,6 +137,8 @@ def check_trace_acd(case, res, rep, lean_drive):
             prev = (ev["w"], ev["Xw"])
         elif kind == "anderson":
             last_and = ev
+        elif kind == "accept":
+            last_accept = ev
         elif kind == "extrap":
             if ev["is_extrap"]:
                 pw, pXw = prev
@@ -151,7 +154,8 @@ def check_trace_acd(case, res, rep, lean_drive):
                     bufs.append(case.state_tokens(wk, A["arr_Xw"][:, k]))
                 line = (f"cd_extrap {prob} {case.state_tokens(pw, pXw)} {len(ws)} {wl} {Kb} "
                         + " ".join(bufs) + " " + " ".join(fb(c) for c in A["C"]))
-                ev = dict(ev, _anderson=A, _prev=(np.array(pw, copy=True), np.array(pXw, copy=True)))
+                ev = dict(ev, _anderson=A, _prev=(np.array(pw, copy=True), np.array(pXw, copy=True)), _accept=last_accept)
+                last_accept = None
                 reqs.append((line, None, "extrap", ("extrap", ev, list(ws))))
             prev = (ev["w"], ev["Xw"])
         elif kind == "inner":
@@ -199,6 +203,7 @@ def check_trace_acd(case, res, rep, lean_drive):
                    and abs(objs[0] - objs[1]) <= 1e-9 * (1 + abs(objs[0])))
             # an extrapolated coordinate within rounding of a constraint bound may be feasible in one
             # floating-point evaluation and infeasible in the other
+            bound_tie = False
             wa = np.asarray(wacc[:p], float)
             lo = float(np.min(wa)) if p else 0.0
             hi = float(np.max(wa)) if p else 0.0
@@ -207,6 +212,19 @@ def check_trace_acd(case, res, rep, lean_drive):
                 if abs(min(lo, 0.0)) <= 1e-9 and (pk.kind != "box" or abs(max(hi - pk.alpha, 0.0)) <= 1e-9):
                     if (lo < 1e-9) or (pk.kind == "box" and hi > pk.alpha - 1e-9):
                         tie = True
+                        bound_tie = True
+            # the two objective values the implementation compared are the model's objective at the current and at
+            # the extrapolated point (each evaluated with that point's own coefficients and model fit)
+            acc_ev = ev.get("_accept")
+            if acc_ev is not None and all(isinstance(t, float) for t in objs):
+                io = [float(acc_ev["p_obj"]), float(acc_ev["p_obj_acc"])]
+                scale_o = 1e-7 * (1 + max(abs(t) for t in objs if np.isfinite(t)) if any(np.isfinite(t) for t in objs) else 1.0)
+                bad_o = [k for k in range(2) if not ((np.isinf(io[k]) and np.isinf(objs[k])) or abs(io[k] - objs[k]) <= scale_o
+                                                     * max(1.0, float(np.max(np.abs(ev["_anderson"]["C"]))))
+                                                     or (bound_tie and np.isinf(io[k]) != np.isinf(objs[k])))]
+                if bad_o:
+                    rep.disagree("S:accept-objectives", line[:300], io, objs, dict(sig0, site="AndersonCD._solve:accept"),
+                                 case=case.describe())
             # cancellation in sum_k c_k w_k: errors scale with |c| * |iterates|
             A = ev.get("_anderson")
             cs = 1.0 + (float(np.max(np.abs(A["C"]))) if A is not None else 0.0) * (
